@@ -12,6 +12,7 @@ from vmc.core.rec import HarnessError
 from vmc.seams import sched
 
 ID = "C11"
+TECHNIQUE = 'deviation-bounded stateless exploration of every completion order of every map call (iterative context bounding) + exhaustive chunk-size / map-kind enumeration against a dense reference model, on the real implementation'
 LEVEL = "model_checking"
 RULE = ("24 (cooler, option) points that converge quickly: (a) EVERY chunksize 1..nnz+1 and None; (b) map implementations: builtin "
         "lazy map, eager list map, VirtualPool.map / imap / imap_unordered (tasks on dill copies); (c) schedules: with 2, 3, 4 spans "
